@@ -132,7 +132,7 @@ func chooseCol(r *rand.Rand, s *colSpec, dv driver.Value) colChoice {
 		c.lob = r.Intn(3) == 0
 	case []byte:
 		c.lob = r.Intn(2) == 0
-		if s.jsonTag && !s.rawJSON && r.Intn(3) == 0 {
+		if s.jsonTag && !s.rawJSON && !s.isValuer && r.Intn(3) == 0 { // a Valuer type's stored form need not be JSON
 			c.jsonNorm = true
 		}
 	case time.Time:
